@@ -13,7 +13,7 @@ META = dict(
               "protected values; error codes per attribute access; executable monitor over a reference semantics of link "
               "security (AttSrvSpecVal.v). Tie: generated server<> instantiations with every placement of "
               "requires_encryption / no_encryption_required / may_require_encryption, three link states, all request kinds",
-    level_note="see docs/C05.md")
+    level_note="proved (unbounded, every configuration, no wf needed): non-interference of every operation acting through an unencrypted connection (l2cap_input with all 14 handlers, l2cap_output, application operations) for states that differ only in protected values, lifted to histories of any length; integrity of protected values; per attribute access the refusal without effect with 0x05 (no key) / 0x0F (key) for protected values and CCCDs; spec_protected = characteristic_requires_encryption for all option placements; the monitor accepts every model trace without Read By Type / Read Multiple / l2cap_output. Only monitored / tied: the monitor's scans of Read By Type / Read Multiple responses and of l2cap_output for protected handles; the connection-wide statement that protected CCCD bits stay unchanged (Definition C05_protected_cccd_unchanged_full; needs injectivity of cccd_position). See docs/C05.md")
 
 
 class C05(AttBase):
@@ -44,6 +44,8 @@ class C05(AttBase):
         for cfg, vi in zip(cfgs, VC.vinfos(self.component, cfgs)):
             for ops in VC.gen_three_states(rng, vi):
                 cases.append(self.case("states", cfg, ops))
+            for ops in VC.gen_subscribed_then_unencrypted(rng, vi):
+                cases.append(self.case("subscribed", cfg, ops))
             for k in range(per):
                 cases.append(self.case("hist", cfg, VC.gen_value_history(rng, vi, rng.choice([10, 25, 60]), sec_rate=0.16)))
             for ops in VC.gen_queue_cases(rng, vi)[:4 if not ctx.thorough else None]:
